@@ -315,10 +315,10 @@ var (
 		if shouldValidate, err := checkLegal(opts, name, version, recordType, def); err != nil {
 			return "", err
 		} else if shouldValidate {
-			v := strings.Trim(value, "<>")
-			if len(value) != len(v)+2 {
+			if len(value) < 2 || value[0] != '<' || value[len(value)-1] != '>' {
 				return "", fmt.Errorf("WARC id should be encapsulated by <>")
 			}
+			v := value[1 : len(value)-1]
 			if _, err := url.Parse(v); err != nil {
 				return "", err
 			}
